@@ -223,7 +223,11 @@ func (r *dRunner) consume(seen *[]dframe) []dverdict {
 				r.hasPos, r.off, r.epoch = true, s.Offset, s.Epoch
 			}
 			for j, p := range s.Publications {
-				pf, v := r.take(p, fmt.Sprintf("recovered-chain[%d/%d]", j+1, len(s.Publications)), r.chainSig(j))
+				sig := r.chainSig(j)
+				if j >= 2 && !s.Publications[j-1].Delta {
+					sig += ":after-full-fallback" // the previous recovered publication travelled in full in the middle of the chain
+				}
+				pf, v := r.take(p, fmt.Sprintf("recovered-chain[%d/%d]", j+1, len(s.Publications)), sig)
 				f.Pubs = append(f.Pubs, pf)
 				if v != nil {
 					vs = append(vs, *v)
@@ -474,7 +478,11 @@ func (w *dWorker) run(bi int, beh []map[string]any, proto centrifuge.ProtocolTyp
 			if r.kind != "nohist" {
 				opts = append(opts, centrifuge.WithHistory(w.hist, time.Minute))
 			}
-			pr, err := w.env.Node.Publish(r.ch, r.pl.get(id), opts...)
+			pk := "sim"
+			if v, ok := step["pk"]; ok {
+				pk = vh.Str(v)
+			}
+			pr, err := w.env.Node.Publish(r.ch, r.pl.getKind(id, pk), opts...)
 			if err != nil {
 				drift("publish: " + err.Error())
 				break
